@@ -255,7 +255,7 @@ func run(c *core.Ctx) error {
 
 	// 1. the model decides (concurrently with the Go side)
 	type mc struct{ cfg string; workers int }
-	models := []mc{{"NumericMC_pair_w7.cfg", 2}, {"NumericMC_split_b4l3g2.cfg", 2}, {"NumericMC_pair_w6.cfg", 1}, {"NumericMC_split_b2l4.cfg", 1}}
+	models := []mc{{"NumericMC_pair_w7.cfg", 3}, {"NumericMC_split_b4l3g2.cfg", 2}, {"NumericMC_pair_w6.cfg", 1}, {"NumericMC_split_b2l4.cfg", 1}}
 	if c.Thorough() {
 		models = append(models, mc{"NumericMC_split_b4l3.cfg", 2}, mc{"NumericMC_split_b2l6.cfg", 2}, mc{"NumericMC_split_b16l2.cfg", 4}, mc{"NumericMC_pair_w8.cfg", 4})
 	}
